@@ -6,7 +6,7 @@ CONSTANTS
   ReReadKeys <- MC_ReRead2
   InsertNewTagStoresChars = FALSE
   NonAtomicRead = FALSE
-  QReadBindsDbFirst = FALSE
+  NonAtomicQread = FALSE
   ShallowCopy = FALSE
   SrcSteps = 0
   Emit = TRUE
